@@ -26,7 +26,11 @@ ASSUMPTIONS = [
 
 ALG_BY_ID = {v: k for k, v in R.HASH_ALGS.items()}
 SEV_KEYS = {R.ENVELOPE[n]: n for n in R.SEVERABLE}
-TARGETS = [23, 24, 255, 256, 65535, 65536]
+# lengths of the wrapped manifest / severed member: the CBOR header-width boundaries, and multiples of common block sizes (a digest computed
+# block-wise must not depend on where the blocks end)
+TARGETS = [23, 24, 255, 256, 65535, 65536, 512, 1024, 4096, 8192, 12288, 16384, 32768, 131072,
+           # ... the same multiples for the length INCLUDING the byte-string header (3 bytes up to 65535, 5 bytes above): that is what is hashed
+           509, 1021, 4093, 8189, 12285, 16381, 32765, 65533, 65531, 131067]
 
 
 def H(alg, data):
@@ -245,6 +249,8 @@ def product_cases():
                 if member == "suit-text" and mode == "inline":
                     continue  # F7a form; not in the language judged here
                 for target in TARGETS:
+                    if target not in TARGETS[:6] and (list(R.HASH_ALGS).index(alg) + list(R.SEVERABLE).index(member)) % 5:
+                        continue  # the block-size multiples do not depend on the algorithm: one algorithm per member
                     man = {"suit-manifest-version": 1, "suit-manifest-sequence-number": 1, "suit-common": {}}
                     env = {}
                     if mode == "inline":
